@@ -7,7 +7,7 @@ untouched extensions, and filter_kmers reaches no pruning function); the re-comp
 and prunes again in that order for every censoring scenario, with the complete graph-route step table; pieces and their
 boundary extensions agree ((start, len) on the same read; flank tables); the shard score is a permutation look-up,
 strand-symmetric in reverse-complement mode; the shard id is the rank of the canonical minimizer."""
-from .. import dt_graph, dt_tables, dt_compress, dt_msp, lemmas
+from .. import dt_filter, dt_graph, dt_tables, dt_compress, dt_msp, lemmas
 from . import common
 
 ASSUMPTIONS = ["weakest claim of the set: only the listed mechanisms are decided, not the equality of the two resulting graphs"]
@@ -42,3 +42,8 @@ def run(F, rep):
     rep.run(common.run_store_kmer_lemmas, F, rep, "C04.6")
     # shard pieces are packed into fixed-size strings when the caller asks for them: Lmer::from_slice must keep every base and the length
     rep.run(lemmas.lmer_lemmas, F, rep, which={"from_slice"})
+    # ... and the growable string as piece container: `from_slice` starts from `blank(n)`, whose word vector must be the canonical one
+    rep.run(lemmas.dnastring_lemmas, F, rep, which={"new"})
+    # the statement quantifies over read sets and count thresholds: the k-mer table the graph is built from is filter_kmers' (pass tiling,
+    # grouping, canonicalisation, emission)
+    rep.run(dt_filter.filter_tables, F, rep, "C04.2")
